@@ -120,8 +120,15 @@ def make_op(req, shared=None):
     brng = np.random.default_rng(2000 + req["bseed"])
     bdt = DataType.int64 if req["dt"] == "int16" else DataType.int32
     bvals = brng.integers(-20000, 20001, size=[depth])
-    bt = create_const_tensor("b%d" % req["bseed"], [depth], bdt, bvals, quantization=QuantizationParameters(scale_f32=np.float32(1.0), zero_point=0))
-    bt.values = bvals.astype(bt.dtype.as_numpy_type())
+    bkey = ("b", depth, req["bseed"], req["dt"])
+    if shared is not None and bkey in shared:
+        # several operators naming one bias constant: the reader gives each its own clone, which keeps the identity of the VALUES
+        bt = shared[bkey].clone("_again", set_unique=True)
+    else:
+        bt = create_const_tensor("b%d" % req["bseed"], [depth], bdt, bvals, quantization=QuantizationParameters(scale_f32=np.float32(1.0), zero_point=0))
+        bt.values = bvals.astype(bt.dtype.as_numpy_type())
+        if shared is not None:
+            shared[bkey] = bt
     from ethosu.vela.tensor import TensorFormat, TensorPurpose
 
     bt.purpose = TensorPurpose.FSBias
@@ -326,6 +333,9 @@ def history_alphabet():
     A.append(("bias1_full", dict(base, slices=[0, 64], bseed=1)))
     A.append(("bias1_s16x4", dict(base, slices=[0, 16, 32, 48, 64], bseed=1)))
     A.append(("u65_s16x4", dict(base, slices=[0, 16, 32, 48, 64], acc="ethos-u65-512")))
+    # another operator with the SAME bias constant and the same IFM / OFM scales but other weights with per-channel scales
+    A.append(("perch_full", dict(base, slices=[0, 64], per_channel=True, wseed=8)))
+    A.append(("perch_s16x4", dict(base, slices=[0, 16, 32, 48, 64], per_channel=True, wseed=8)))
     # a second weight tensor whose (core, slice) channel counts are not multiples of 8 (scale sections need padding to 16 bytes):
     # the second request of a pair hits the weight cache and only its scales are encoded afresh
     b2 = dict(base, depth=40, wseed=9, k=(1, 1), ic=16)
